@@ -368,6 +368,16 @@ def evalMulti (j : Json) (obs : Json) : E Verdict := do
             else if sw != op then
               ok := false; why := s!"component {c}: " ++ firstDiff sw op
       v := v.add "C09" ok why
+      -- hypothesis of `C09_sole_input`, evaluated on the model: pre-processing a component's own edge list gives exactly the
+      -- component that pre-processing the union hands to the pipeline (same node numbers, edge numbers, incidence lists, sizes)
+      match preProcess whole.cfg whole.edges with
+      | .error e => v := v.add "K:c09-pre" false s!"model error {e}"
+      | .ok cs =>
+        let bad := parts.zipIdx.find? fun (p, c) =>
+          match preProcess p.cfg p.edges, cs[c]? with
+          | .ok [c1], some c0 => !(c1.1 == c0.1 && c1.2 == c0.2)
+          | _, _ => true
+        v := v.add "K:c09-pre" bad.isNone s!"component {(bad.map (·.2)).getD 0}: pre-processing it alone gives a different graph state"
       if whole.cfg.p4 ≤ 3 && !approx then v := v.add "C09side" (c09_sideBySide whole.cfg ow) "components-not-side-by-side"
   | _, _ => throw s!"bad multi case {rel}"
   pure v
